@@ -20,3 +20,120 @@ package gogu
 //@ loop 1
 //@   invariant -1 <= i && i < len(s)
 //@   invariant forall j int :: i < j && j < len(s) ==> s[j] != val
+
+//@ func gogu.FindIndex
+//@   property C13 C16
+//@   requires fn != nil
+//@   ensures result >= 0 ==> result < len(s) && call(fn, s[result])
+//@   ensures result >= 0 ==> forall j int :: 0 <= j && j < result ==> !call(fn, s[j])
+//@   ensures result < 0 ==> result == -1 && forall j int :: 0 <= j && j < len(s) ==> !call(fn, s[j])
+//@ loop 1
+//@   invariant forall j int :: 0 <= j && j < k ==> !call(fn, s[j])
+
+//@ func gogu.FindLastIndex
+//@   property C13 C16
+//@   requires fn != nil
+//@   ensures result >= 0 ==> result < len(s) && call(fn, s[result])
+//@   ensures result >= 0 ==> forall j int :: result < j && j < len(s) ==> !call(fn, s[j])
+//@   ensures result < 0 ==> result == -1 && forall j int :: 0 <= j && j < len(s) ==> !call(fn, s[j])
+//@ loop 1
+//@   invariant -1 <= i && i < len(s)
+//@   invariant forall j int :: i < j && j < len(s) ==> !call(fn, s[j])
+
+//@ func gogu.FindAll
+//@   property C13 C16
+//@   requires fn != nil
+//@   ensures fresh(result) && result != nil
+//@   ensures forall j int :: j in result <==> (0 <= j && j < len(s) && call(fn, s[j]))
+//@   ensures forall j int :: j in result ==> result[j] == s[j]
+//@ loop 1
+//@   invariant forall j int :: j in m <==> (0 <= j && j < k && call(fn, s[j]))
+//@   invariant forall j int :: j in m ==> m[j] == s[j]
+
+//@ func gogu.Contains
+//@   property C13 C11 C16
+//@   ensures result <==> exists j int :: 0 <= j && j < len(slice) && slice[j] == value
+//@ loop 1
+//@   invariant forall j int :: 0 <= j && j < $i ==> slice[j] != value
+
+//@ func gogu.Some
+//@   property C13 C16
+//@   requires fn != nil
+//@   ensures result <==> exists j int :: 0 <= j && j < len(slice) && call(fn, slice[j])
+//@ loop 1
+//@   invariant forall j int :: 0 <= j && j < $i ==> !call(fn, slice[j])
+
+//@ func gogu.Every
+//@   property C13 C16
+//@   requires fn != nil
+//@   ensures result <==> forall j int :: 0 <= j && j < len(slice) ==> call(fn, slice[j])
+//@ loop 1
+//@   invariant forall j int :: 0 <= j && j < $i ==> call(fn, slice[j])
+
+//@ func gogu.FindMin
+//@   property C13 C16
+//@   ensures len(s) == 0 ==> result == zero
+//@   ensures len(s) > 0 ==> exists j int :: 0 <= j && j < len(s) && s[j] == result
+//@   ensures forall j int :: 0 <= j && j < len(s) ==> result <= s[j]
+//@ loop 1
+//@   invariant 0 <= i && i <= len(s)
+//@   invariant len(s) == 0 ==> min == zero
+//@   invariant len(s) > 0 ==> exists j int :: 0 <= j && j < len(s) && s[j] == min
+//@   invariant forall j int :: 0 <= j && j < i ==> min <= s[j]
+
+//@ func gogu.FindMax
+//@   property C13 C16
+//@   ensures len(s) == 0 ==> result == zero
+//@   ensures len(s) > 0 ==> exists j int :: 0 <= j && j < len(s) && s[j] == result
+//@   ensures forall j int :: 0 <= j && j < len(s) ==> result >= s[j]
+//@ loop 1
+//@   invariant 0 <= i && i <= len(s)
+//@   invariant len(s) == 0 ==> max == zero
+//@   invariant len(s) > 0 ==> exists j int :: 0 <= j && j < len(s) && s[j] == max
+//@   invariant forall j int :: 0 <= j && j < i ==> max >= s[j]
+
+//@ func gogu.Compare
+//@   property C13 C03 C04
+//@   requires comp != nil
+//@   ensures call(comp, a, b) ==> result == 1
+//@   ensures !call(comp, a, b) && call(comp, b, a) ==> result == -1
+//@   ensures !call(comp, a, b) && !call(comp, b, a) ==> result == 0
+
+//@ func gogu.Equal
+//@   property C13
+//@   ensures result <==> a == b
+
+//@ func gogu.Less
+//@   property C13
+//@   ensures result <==> a < b
+
+//@ func gogu.Clamp
+//@   property C13
+//@   ensures min <= max ==> min <= result && result <= max
+//@   ensures min <= num && num <= max ==> result == num
+//@   ensures result == num || result == min || result == max
+
+//@ func gogu.InRange
+//@   property C13
+//@   ensures result <==> (lo <= num && num <= up)
+
+//@ func gogu.Abs
+//@   property C13
+//@   arith checked
+//@   finding KF-abs-min when x == Tmin_T && Tmin_T < 0
+//@   ensures result >= 0
+//@   ensures result == x || result == -x
+
+//@ func (gogu.Bound).Enclose
+//@   property C13
+//@   arith checked
+//@   requires nth > Tmin_T
+//@   ensures result <==> (abs(nth) >= b.Min && abs(nth) <= b.Max)
+
+//@ func gogu.Nth
+//@   property C13 C16
+//@   arith checked
+//@   requires nth > MinInt
+//@   ensures 0 <= nth && nth < len(slice) ==> result1 == nil && result0 == slice[nth]
+//@   ensures 0 - len(slice) <= nth && nth < 0 ==> result1 == nil && result0 == slice[len(slice)+nth]
+//@   ensures nth >= len(slice) || nth < 0 - len(slice) ==> result1 != nil
